@@ -34,9 +34,9 @@ func genLife(g *vh.Gen) string {
 	nsess := g.Intn(4)
 	for i := 0; i < nsess; i++ {
 		s := &sess{id: i, proto: g.Pick("S", "S", "P"), state: "greeted", open: true}
-		if s.proto == "S" && g.Chance(0.25) {
+		if g.Chance(0.25) {
 			s.held = true
-			ops = append(ops, fmt.Sprintf("O%d", i))
+			ops = append(ops, fmt.Sprintf("O%d:%s", i, s.proto))
 		} else {
 			ops = append(ops, fmt.Sprintf("o%d:%s", i, s.proto))
 			order := smtpStates
@@ -127,6 +127,8 @@ func gen(g *vh.Gen) {
 	}
 	g.Emit("life", "O0,k,DS,L0,DS,p0:body,f0,DS")
 	g.Emit("life", "O0,k,DS,a0,DS")
+	g.Emit("life", "O0:P,k,DP,L0,DP,p0:dele,f0,DP")
+	g.Emit("life", "O0:P,O1:S,k,DP,DS,a0,DP,L1,f1,DS")
 	g.Emit("life", "k,nS,nP,DS,DP")
 	for i := 0; i < g.N(45, 1000); i++ {
 		g.Emit("life", genLife(g))
